@@ -9,6 +9,7 @@ pub use Event::Pressed;
 pub use Event::Released;
 
 #[derive(Debug, Clone, Serialize, Deserialize, PartialEq, Eq)]
+#[cfg_attr(ellbur_totalmapper_verif, derive(Hash))]
 pub struct Mapping {
   pub from: Vec<KeyCode>,
   pub to: Vec<KeyCode>,
@@ -30,6 +31,7 @@ impl Default for Mapping {
 }
 
 #[derive(Debug, Clone, Serialize, Deserialize, PartialEq, Eq)]
+#[cfg_attr(ellbur_totalmapper_verif, derive(Hash))]
 pub enum Repeat {
   Normal,
   Disabled,
